@@ -77,6 +77,7 @@ int  rt_choose (const char *tag);          /* park as OP_CLIENT, return the gran
 void rt_region_begin (int kind, void *addr, const char *tag); /* park, then run without parking until _end */
 void rt_region_end (void);
 void rt_region_begin2 (int kind, void *addr, const char *tag, unsigned a);
+extern int rt_swc_region;                  /* 1: nsync_sem_wait_with_cancel_'s note bookkeeping runs as atomic regions (L1); 0: fine-grained */
 extern int rt_no_exit_dest;                /* 1: do not run the waiter destructor at thread exit (L2) */
 void rt_noyield_begin (void);              /* no park at all (harness bookkeeping inside a fiber) */
 void rt_noyield_end (void);
